@@ -1,10 +1,179 @@
-//! Resolver-level part of C05 (answers served from the cache by
-//! `dns_resolver::resolve` honour the TTL) — filled in with the E-NET engine.
+//! Resolver-level part of C05: answers of `dns_resolver::resolve` that are
+//! served from the cache honour the TTL.  History: resolve q; advance the
+//! clock by t; upstream goes silent; resolve q again — the record is served
+//! iff its TTL has not elapsed, with a TTL not above the time it has left.
+
+use crate::c07::base_spec;
 use crate::common::*;
-use serde_json::Value;
+use crate::net::*;
+use crate::ugen::*;
+use crate::util::*;
+use dns_types::protocol::types::*;
+use serde_json::{json, Value};
+use std::sync::Arc;
+use std::time::Duration;
 
-pub fn run_resolver_level(_ctx: &Ctx, _report: &mut Report) {}
+struct Case {
+    q: Question,
+    /// (record owner, ttl in the universe) of every record whose lifetime matters
+    advance_ms: u64,
+}
 
-pub fn replay(_ctx: &Ctx, _v: &Value) -> i32 {
-    2
+fn judge(u: &Universe, q: &Question, advance_ms: u64, res: &RunResult) -> Vec<(&'static str, String)> {
+    let mut out = Vec::new();
+    if res.asks.len() != 2 {
+        return out;
+    }
+    let first = outcome_rrs(&res.asks[0].outcome);
+    let second = outcome_rrs(&res.asks[1].outcome);
+    if let Outcome::Panic(m) = &res.asks[1].outcome {
+        out.push(("c05-panic", format!("panicked: {m}")));
+    }
+    // authoritative TTL of every record of the first answer
+    let ttl_of = |r: &ResourceRecord| -> Option<u32> {
+        for z in &u.zones {
+            for x in z.all() {
+                if x.owner == r.name && x.data == r.rtype_with_data {
+                    return Some(x.ttl);
+                }
+            }
+        }
+        None
+    };
+    // exchanges of the second question that got an answer: none (upstream is off)
+    for r in &second {
+        let ttl = match ttl_of(r) {
+            Some(t) => t,
+            None => {
+                out.push(("get-returned-unknown", format!("second answer contains {} which no server holds", show_rr(r))));
+                continue;
+            }
+        };
+        let elapsed_ms = advance_ms; // resolution itself takes no virtual time while upstream answers at once
+        let left_ms = (u64::from(ttl) * 1000).saturating_sub(elapsed_ms);
+        if left_ms == 0 {
+            out.push((
+                "get-returned-expired",
+                format!("{} was served from the cache {} ms after it was obtained with TTL {}", show_rr(r), elapsed_ms, ttl),
+            ));
+        } else if u64::from(r.ttl) * 1000 > left_ms {
+            out.push((
+                "get-ttl-exceeds-remaining",
+                format!("{} reports TTL {} but only {} ms are left", show_rr(r), r.ttl, left_ms),
+            ));
+        }
+    }
+    // completeness: if every record of the first answer has >= 1 s left, the
+    // second answer must be the same records
+    let all_live = !first.is_empty()
+        && first.iter().all(|r| ttl_of(r).map(|t| u64::from(t) * 1000 >= advance_ms + 1000).unwrap_or(false));
+    if all_live {
+        let a: Vec<_> = canon_rrs_nottl(&first);
+        let b: Vec<_> = canon_rrs_nottl(&second);
+        if a != b {
+            out.push((
+                "get-missing-live",
+                format!("after {} ms the cached answer {:?} should still be served, got {}", advance_ms, a, show_outcome(&res.asks[1].outcome)),
+            ));
+        }
+    }
+    let _ = q;
+    out
+}
+
+fn universe() -> (GenParams, Arc<Universe>) {
+    let mut p = GenParams::simple(2, NsStyle::InZoneGlue, 1);
+    p.styles = vec![NsStyle::InZoneGlue, NsStyle::InParent];
+    let u = Arc::new(build(&p));
+    (p, u)
+}
+
+fn steps_for(q: &Question, advance_ms: u64) -> Vec<Step> {
+    vec![
+        Step::Ask(q.clone()),
+        Step::Advance(Duration::from_millis(advance_ms)),
+        Step::UpstreamOff,
+        Step::Ask(q.clone()),
+    ]
+}
+
+pub fn run_resolver_level(ctx: &Ctx, report: &mut Report) {
+    let (p, u) = universe();
+    let leaf = level_apex(p.depth);
+    let qs = vec![
+        question(&prepend(b"www", &sibling_apex()), qt(RecordType::A)), // TTL 2
+        question(&prepend(b"chain", &leaf), qt(RecordType::A)),          // alias TTL 2 -> 300 -> record TTL 2
+        question(&prepend(b"www", &leaf), qt(RecordType::A)),            // TTL 300
+        question(&prepend(b"www", &leaf), qt(RecordType::TXT)),
+    ];
+    let advances: Vec<u64> = match ctx.tier {
+        Tier::Quick => vec![0, 1000, 1500, 2000, 3000, 299_000, 300_000, 301_000],
+        Tier::Thorough => vec![0, 1, 999, 1000, 1001, 1500, 1999, 2000, 2001, 3000, 150_000, 299_000, 299_999, 300_000, 300_001, 301_000],
+    };
+    let mut runs = 0u64;
+    let mut served = 0u64;
+    for q in &qs {
+        for adv in &advances {
+            let spec = base_spec(u.clone(), steps_for(q, *adv));
+            let mut stats = ExploreStats::default();
+            let mut visit = |res: &RunResult, choices: &[usize]| {
+                runs += 1;
+                if matches!(res.asks.get(1).map(|a| &a.outcome), Some(Outcome::Ok(_))) {
+                    served += 1;
+                }
+                for (clause, msg) in judge(&u, q, *adv, res) {
+                    report.violations.push(Violation {
+                        clause: format!("resolver-{clause}"),
+                        summary: format!("question {} {} advance {} ms: {}", show_name(&q.name), q.qtype, adv, msg),
+                        replay: json!({
+                            "kind": "resolver-ttl",
+                            "question": {"name": q.name.to_dotted_string(), "qtype": u16::from(q.qtype)},
+                            "advance_ms": adv,
+                            "choices": choices,
+                        }),
+                        slug: None,
+                    });
+                }
+            };
+            explore(&spec, 0, 64, &mut stats, &mut visit);
+            report.evaluations += stats.executions;
+            report.transitions += stats.exchanges;
+            report.traces_validated += stats.executions;
+        }
+    }
+    report.distinct_nontrivial += served;
+    report.hist("resolver-level runs (resolve; advance; upstream off; resolve)", runs);
+    report.hist("resolver-level runs whose second answer was served from the cache", served);
+    report.extra.insert(
+        "resolver_level".into(),
+        json!({"questions": qs.iter().map(|q| format!("{} {}", show_name(&q.name), q.qtype)).collect::<Vec<_>>(), "advances_ms": advances}),
+    );
+}
+
+pub fn replay(ctx: &Ctx, v: &Value) -> i32 {
+    let (_p, u) = universe();
+    let q = question(
+        &dn(v["question"]["name"].as_str().unwrap_or(".")),
+        QueryType::from(v["question"]["qtype"].as_u64().unwrap_or(1) as u16),
+    );
+    let adv = v["advance_ms"].as_u64().unwrap_or(0);
+    let choices: Vec<usize> = v["choices"].as_array().cloned().unwrap_or_default().iter().filter_map(|c| c.as_u64().map(|c| c as usize)).collect();
+    let spec = base_spec(u.clone(), steps_for(&q, adv));
+    let res = run_once(&spec, &choices);
+    println!("question {} {}; advance {} ms; then upstream off", show_name(&q.name), q.qtype, adv);
+    println!("exchanges: {}", show_log(&res.log));
+    for a in &res.asks {
+        println!("answer: {}", show_outcome(&a.outcome));
+    }
+    let findings = judge(&u, &q, adv, &res);
+    for (c, m) in &findings {
+        println!("  finding [{c}]: {m}");
+    }
+    if findings.is_empty() {
+        println!("replay: property holds on this case");
+        0
+    } else {
+        println!("VIOLATION property={} replay=(replayed case)", ctx.id);
+        1
+    }
 }
